@@ -6,7 +6,7 @@ C15 — formatting never changes the program and is idempotent.
 The statement has four clauses: (1) tokens(format s) = tokens s (comments, pragmas, strings included),
 (2) format (format s) = format s, (3) range / on-type edits only re-lay-out the lines they cover,
 (4) the same for the web IDE formatter.  After the fixes 0cc0118, 2b1ad0b, 997b5b5, b483235, 26b5189, 944815f,
-6232ed3 the model follows the repaired code, and the theorems that were `_partial` with a counterexample
+6232ed3, PENDING-C15-align-assign the model follows the repaired code, and the theorems that were `_partial` with a counterexample
 are stated in full: `c15_line_tokens` (re-lex guard), `c15_no_panic`, `c15_range_line_count`,
 `c15_colon_guard`, `c15_web_idempotent`.  What the code still violates keeps its proved counterexample
 (`c15_wrap_idempotent_counterexample`, `c15_web_comment_counterexample`) and an open known finding.
@@ -451,27 +451,39 @@ theorem c15_wrap_idempotent_counterexample :
 
 /-! ## The assignment alignment pass (`align_assignment_ops`) -/
 
-/-- What holds of `align_assignment_ops` for EVERY list of lines: it inserts white space only — no character
-of any line is lost, changed or reordered.  `_partial`: the clause "same tokens" needs more, namely that the
-white space falls between two tokens, and the text search `find_assignment_op` does not guarantee that
-(`c15_align_assign_counterexample`; decidable guard `assignOpIsToken`, reported by the check as
-`assign-op-in-token`). -/
-theorem c15_align_assign_partial (ls : List OutLine) :
+/-- `align_assignment_ops` inserts white space only, for EVERY list of lines: no character of any line is
+lost, changed or reordered.  Where the white space goes is `find_assignment_op`: since the fix
+PENDING-C15-align-assign the start of the line's first `Assign` / `Arrow` TOKEN (`findAssignOp`,
+`c15_align_assign_at_token`), no longer the first text occurrence of ":=" / "=>". -/
+theorem c15_align_assign (ls : List OutLine) :
     (alignAssignOps ls).map (fun x => nonWs x.text) = ls.map (fun x => nonWs x.text) :=
   nonWs_alignAssignOps_go _ _
 
+/-- The padding index is a token boundary: in front of the index `find_assignment_op` returns there are
+exactly the `n` non-white-space characters of the tokens that precede the first `Assign` / `Arrow` token
+(whenever the line has more than `n` such characters, i.e. the token is there). -/
+theorem c15_align_assign_at_token (o : OutLine) (n i : Nat) (hs : o.opSkip = some n)
+    (hn : n < (nonWs o.text).length) (hi : findAssignOp o = some i) :
+    (nonWs (splitAtByte o.text i).1).length = n := by
+  unfold findAssignOp at hi
+  rw [hs] at hi
+  simp only [Option.map_some, Option.some.injEq] at hi
+  rw [← hi]
+  exact nonWs_splitAt_offsetAfter o.text n hn
+
 /-- non-vacuity / the pass at work: `x:=1;` is padded to the operator column of `longer:=2;` -/
 example :
-    (alignAssignOps [{ text := txt "x:=1;", inVar := false, skipAlign := false },
-                     { text := txt "longer:=2;", inVar := false, skipAlign := false }]).map (·.text) =
-      [txt "x     :=1;", txt "longer:=2;"] := by decide +kernel
+    (alignAssignOps [{ text := txt "x:=1;", inVar := false, skipAlign := false, opSkip := some 1 },
+                     { text := txt "longer:=2;", inVar := false, skipAlign := false, opSkip := some 6 }]).map (·.text) =
+      [txt "x     :=1;", txt "longer:=2;"] ∧
+    findAssignOp { text := txt "  x :=1;", inVar := false, skipAlign := false, opSkip := some 1 } = some 4 := by
+  decide +kernel
 
-/-- Clause 1 ("same tokens") is FALSE of the LSP formatter in compact style with assignment alignment (the
-default): `a <= > b;` is re-emitted as `a<=>b;` (which the lexer reads back as `<=` `>`, so the re-lex guard
-accepts it), then `find_assignment_op` finds the TEXT "=>" at byte 2 — across the token boundary — and the
-alignment pass pads there: `<=` `>` becomes `<` `=>`.  Known finding C15-align-assign-op-in-token (broken
-programs only: the pairs are `?=`/`<=`/`>=` followed by `>`/`>=`). -/
-theorem c15_align_assign_counterexample :
+/-- the former counterexample (finding C15-align-assign-op-in-token, repaired): in compact style `a <= > b;` is
+re-emitted as `a<=>b;`; the line has no `Assign` / `Arrow` token, so the alignment pass leaves it alone (the text
+search used to find "=>" across the boundary of `<=` `>` and padded there: `a<         =>b;`), and formatting the
+result again changes nothing. -/
+example :
     formatDocument { cfgDefault with style := .compact }
       { lines := [
           lineOf "longer_name := 1;" [tk "Ident" .Ident "longer_name", tk "Assign" .Assign ":=",
@@ -480,12 +492,16 @@ theorem c15_align_assign_counterexample :
                               tk "Semicolon" .Semicolon ";"],
           lineOf "" []],
         crlf := false, endsNl := true } =
-      some (txt "longer_name:=1;\na<         =>b;\n") ∧
-    assignOpIsToken .preserve [tk "Ident" .Ident "a", tk "LtEq" .LtEq "<=", tk "Gt" .Gt ">", tk "Ident" .Ident "b",
-                               tk "Semicolon" .Semicolon ";"] (txt "a<=>b;") = false ∧
-    assignOpIsToken .preserve [tk "Ident" .Ident "longer_name", tk "Assign" .Assign ":=",
-                               tk "IntLiteral" .IntLiteral "1", tk "Semicolon" .Semicolon ";"]
-      (txt "longer_name:=1;") = true := by
+      some (txt "longer_name:=1;\na<=>b;\n") ∧
+    formatDocument { cfgDefault with style := .compact }
+      { lines := [
+          lineOf "longer_name:=1;" [tk "Ident" .Ident "longer_name", tk "Assign" .Assign ":=",
+                                    tk "IntLiteral" .IntLiteral "1", tk "Semicolon" .Semicolon ";"],
+          lineOf "a<=>b;" [tk "Ident" .Ident "a", tk "LtEq" .LtEq "<=", tk "Gt" .Gt ">", tk "Ident" .Ident "b",
+                           tk "Semicolon" .Semicolon ";"],
+          lineOf "" []],
+        crlf := false, endsNl := true } =
+      some (txt "longer_name:=1;\na<=>b;\n") := by
   decide +kernel
 
 /-- `textDocument/formatting` answers with no edit when the text is already formatted, and otherwise with
